@@ -15,11 +15,20 @@ RULE = ("per version class: strings generated from the scheme's documented gramm
         "whitespace and a leading v do not matter; non-trivial = the string is valid; distinct = distinct (class, string)")
 ASSUMPTIONS = ["version text is ASCII", "CPython int() limit of 4300 digits is outside the model"]
 
+def k05_text(s):
+    """K05, and only K05: an rpm text with an explicit ZERO epoch (which is not printed) in front of a text that reads
+    differently without it (a leading v, which the constructor strips, or a colon, which then delimits an epoch)"""
+    import re
+    n = "".join(s.split()).lstrip("vV")
+    m = re.match(r"^[+-]?0+:(.*)$", n)
+    return bool(m and (m.group(1)[:1] in ("v", "V") or ":" in m.group(1)))
+
+
 # regions of the recorded (open) findings: (scheme, predicate on the text) -> region name
 def _region(name, s, what):
     n = "".join(s.split())
-    if name == "rpm" and what in ("roundtrip",) :
-        return "rpm-str-roundtrip"
+    if name == "rpm" and what in ("roundtrip",):
+        return "rpm-str-roundtrip" if k05_text(s) else None
     if name == "deb" and what == "roundtrip" and n.count("-") >= 2:
         return "deb-str-roundtrip-hyphen"
     if name in ("legacy_openssl", "openssl") and what == "roundtrip":
